@@ -143,8 +143,8 @@ structure V where
       violate the specification; the replay goes on (a later poll may violate it) -/
   pendingDiff : Option String
 
-def V.init : V :=
-  { w := W.init true, r := RState.init Bytes, rNext := RState.init Bytes, specLast := none, specNext := none,
+def V.init (manual : Bool := true) : V :=
+  { w := W.init manual, r := RState.init Bytes, rNext := RState.init Bytes, specLast := none, specNext := none,
     expAtt := [], expCb := [], specCb := [], phase := .idle, nPolls := 0, obsAtt := [], obsCb := [],
     sawK := false, held := [], tags := [], pendingDiff := none }
 
@@ -213,7 +213,13 @@ def join (l : List String) : String := if l.isEmpty then "-" else ",".intercalat
 
 def onToken (os : Bool) (tab : List CEntry) (plans : List Plan) (v : V) (t : String) : R :=
   let plan := planAt plans (v.nPolls - 1)
-  if t = "R" then
+  if t = "t" then
+    -- the poller left its select through the timer case
+    if v.phase ≠ .atSelect then diff "timer-unexpected" else
+    match step v.w .timer with
+    | none => diff s!"poll-by-timer-although-PollManually poll={v.nPolls - 1}"
+    | some w' => .ok (tag { v with w := w', phase := .idle } "b=timerPoll")
+  else if t = "R" then
     if v.phase ≠ .idle then diff "poll-start-unexpected" else
     -- re-arm after a wake-up (two poller steps), if any
     let w0 := if v.w.ppc = .woken then (step v.w .mkChan).bind (fun w => step w .storePtr) else some v.w
@@ -320,13 +326,13 @@ def replay (os : Bool) (tab : List CEntry) (plans : List Plan) : V → List Stri
     | .error e => .error e
 
 /-- the poll-level disagreement recorded before a later (LTS-level) DIFF stopped the replay, if any -/
-def firstPollDiff (os : Bool) (tab : List CEntry) (plans : List Plan) (out : List String) : Option String :=
+def firstPollDiff (os manual : Bool) (tab : List CEntry) (plans : List Plan) (out : List String) : Option String :=
   let rec go (v : V) : List String → Option String
     | [] => v.pendingDiff
     | t :: ts => match onToken os tab plans v t with
       | .ok v' => go v' ts
       | .error _ => v.pendingDiff
-  go V.init out
+  go (V.init manual) out
 
 /-- independent of the replay: no callback token after `c` -/
 def callbackAfterClose : List String → Bool
@@ -335,17 +341,18 @@ def callbackAfterClose : List String → Bool
 
 def handleHist (inp out : List String) : String :=
   match inp with
-  | _ :: osT :: _rt :: ctab :: planToks =>
+  | _ :: osT :: rtT :: ctab :: planToks =>
     if !ctab.startsWith "C=" then "BAD contracts" else
     match ((ctab.drop 2).toString.splitOn ";").mapM parseContract, planToks.mapM parsePlan with
     | some tab, some plans =>
       if plans.isEmpty then "BAD no plans" else
       if out.any (fun t => t.startsWith "BAD" ∨ t.startsWith "PANIC") then s!"DIFF model=no-panic got={" ".intercalate out}" else
       let os := osT == "os1"
-      let res := replay os tab plans V.init out
+      let manual := (rtT.splitOn ",pi").length < 2
+      let res := replay os tab plans (V.init manual) out
       if callbackAfterClose out then "VIOL callback-after-Close-returned" else
       match res with
-      | .error e => if e.startsWith "VIOL" then e else (match firstPollDiff os tab plans out with | some d => d | none => e)
+      | .error e => if e.startsWith "VIOL" then e else (match firstPollDiff os manual tab plans out with | some d => d | none => e)
       | .ok v =>
         if let some d := v.pendingDiff then d
         else if v.w.ppc ≠ .exited then "DIFF model=log-incomplete"
@@ -377,7 +384,75 @@ def verdictEq (out : String) (modelEq : Bool) (specEq : Option Bool) (br : Strin
 def nameFunctional (fs : List File) : Bool :=
   fs.all (fun f => fs.all (fun g => f.proto != g.proto || f.name == g.name))
 
+/-! ### options, aggregate watcher, second Close, independence of resolvers -/
+
+def showBool (b : Bool) : String := if b then "1" else "0"
+
+def showHexList (l : List Bytes) : String :=
+  if l.isEmpty then "-" else ",".intercalate (l.map (fun b => ((toHex b).drop 1).toString))
+
+def showOpts (o : Opts) : List String :=
+  [toString o.pollInterval, toString o.reqTimeout, toString o.recursionLimit, showHexList o.ignorePrefixes,
+   showBool o.pollManually, showBool o.onlyServices]
+
+def handleOpts (inp out : List String) : String :=
+  match inp with
+  | [pi, rt, rl, pf, pm, os] =>
+    match pi.toInt?, rt.toInt?, rl.toInt?, parseHexList pf with
+    | some pi, some rt, some rl, some pf =>
+      let o : Opts := { pollInterval := pi, reqTimeout := rt, recursionLimit := rl, ignorePrefixes := pf,
+                        pollManually := pm == "1", onlyServices := os == "1" }
+      let m := showOpts (builderOpts o)
+      if out ≠ m then s!"DIFF model={" ".intercalate m}"
+      else
+        let clamped := (withDefaults o) != o
+        s!"OK{if clamped then " nt" else ""} b=opts-{if clamped then "defaulted" else "kept"}"
+    | _, _, _, _ => "BAD opts"
+  | _ => "BAD opts line"
+
+def showCall (p : Nat × String) : String := toString p.1 ++ p.2
+
+def handleAgg (n : String) (evs : String) (out : String) : String :=
+  match n.toNat? with
+  | none => "BAD agg"
+  | some n =>
+    let evs := if evs = "-" then [] else evs.splitOn ","
+    let m := (aggregateLog n evs).map showCall
+    let o := if out = "-" then [] else out.splitOn ","
+    -- specification: every watcher observes exactly the calls made on the aggregate
+    let perWatcher (i : Nat) : List String :=
+      o.filterMap (fun c => if c.startsWith (toString i) ∧ n ≤ 10 then some ((c.drop 1).toString) else none)
+    if n ≤ 10 ∧ (List.range n).any (fun i => perWatcher i ≠ evs) then
+      s!"VIOL aggregate-watcher-call-not-delivered-to-every-watcher model={",".intercalate m}"
+    else if o ≠ m then s!"DIFF model={",".intercalate m}"
+    else s!"OK{if n ≥ 2 ∧ evs.length ≥ 2 then " nt" else ""} b=agg{min n 3}"
+
+/-- the state after one poll and a completed `Close()`: what a further `Close()` does there -/
+def secondCloseModel : String :=
+  match GB.LTS.run step (W.init true) [.pollStart, .pollEnd true, .closeCall, .takeDone, .closeRet, .closeDone] with
+  | some s => (match sendOnDone s with | .panics => "panic" | .delivered => "returned" | .blocked => "blocked")
+  | none => "stuck"
+
 def handle : Handler
+  | "opts" :: rest, out => handleOpts rest out
+  | ["agg", n, evs], [out] => handleAgg n evs out
+  | ["close2", "seq"], out =>
+    let m := ["first=returned", "second=" ++ secondCloseModel]
+    if out = m then "OK nt b=close2-seq" else s!"DIFF model={" ".intercalate m}"
+  | ["close2", "conc"], [out] =>
+    -- one of the two sends is received (that call returns), the other meets the state after it
+    let m := ",".intercalate (if secondCloseModel < "returned" then [secondCloseModel, "returned"] else ["returned", secondCloseModel])
+    if out = m then "OK nt b=close2-conc" else s!"DIFF model={m}"
+  | ["indep"], out =>
+    -- each Build starts from `RState.init`: A learns [v1alpha, v1], B still opens v1 first
+    let envA : Version → Attempt String := fun v => match v with
+      | .v1 => .unimplemented | .v1alpha => .fetched ⟨[], []⟩ (some "")
+    let envB : Version → Attempt String := fun _ => .fetched ⟨[], []⟩ (some "")
+    let (_, cbA, triedA) := pollStep (fun b => b) (RState.init Bytes) envA
+    let (_, cbB, triedB) := pollStep (fun b => b) (RState.init Bytes) envB
+    let cb (l : List (Callback String)) : String := String.join (l.map (fun c => match c with | .update _ => "u" | .reportError _ => "e"))
+    let m := [s!"A:{cb cbA}:{",".intercalate (triedA.map verTok)}", s!"B:{cb cbB}:{",".intercalate ((triedB.take 1).map verTok)}"]
+    if out = m then "OK nt b=indep" else s!"DIFF model={" ".intercalate m}"
   | "hist" :: rest, out => handleHist ("hist" :: rest) out
   | ["hsvc", a, b], [out] =>
     match parseHexList a, parseHexList b with
